@@ -38,3 +38,8 @@ CASES = [
     t("shift done in a separate statement", A,
       "            ne = numpy.exp(-(ens-numpy.amin(ens))/kBT)", "            esh = ens - numpy.amin(ens)\n            ne = numpy.exp(-esh/kBT)"),
 ]
+
+CASES += [
+    {"name": "weak-coupling energies read outside the exciton basis", "kind": "mutant", "rule": "C14-C", "edits": [
+        ("quantarhei/builders/aggregate_base.py", "                with eigenbasis_of(Ham):\n                    H = Ham.data\n", "                H = Ham.data\n", 1)]},
+]
